@@ -10,7 +10,11 @@ Bind: (1) GEN -> replay: TLC exports every history of the operation alphabet up
      RequireTrace.tla before it counts.
      Names with 0-3 dots, templates with several marks and files placed where a
      wrong name-to-file conversion would look (decoys) are part of the alphabet.
-     (2) TRACE: seeded random longer histories (4 names out of 10 with 0-3 dots,
+     Directed alphabets: one name, load -> package.loaded[n] = nil -> require for
+     every loader kind; states created with SkipOpenLibs whose libraries the
+     history opens in any order; the package library opened again mid-history.
+     (2) TRACE: every admissible order of OpenBase/OpenPackage/OpenString/
+     OpenTable/RegisterModule/PreloadModule on a SkipOpenLibs state; seeded random longer histories (4 names out of 10 with 0-3 dots,
      leading/trailing/doubled dots; three package.path settings) and
      the libraries opened by the host are executed and what the real code showed
      is validated by TLC against Require.tla (RequireTrace.tla)."""
@@ -29,13 +33,14 @@ RECHECK_PER_KEY = 25      # mismatches re-run and re-decided by RequireTrace per
 P1 = [[["d1"], ["?", ".lua"]], [["d2"], ["?", ".lua"]]]
 P2 = [[["d1"], ["?", ".lua"]], [["d2"], ["?"], ["init.lua"]], [["d3"], ["?"], ["x-", "?", ".lua"]]]
 P3 = [[["d1"], ["?", ".lua"]], [["d2", "sub"], ["?"], ["?", ".lua"]], [["d3"], ["m-", "?", "-", "?", ".lua"]], [["d4"], ["?", ".lua"]]]
-GEN_NAMES = {1: ["a", "b", "c"], 2: ["a", "p.q", "p.q.r", "p.q.r.s"]}
+GEN_NAMES = {1: ["a", "b", "c"], 2: ["a", "p.q", "p.q.r", "p.q.r.s"], 3: ["string", "package", "x", "y", "table"]}
 GEN_PATHS = {1: P1, 2: P2}
 
 
-def mkrec(i, names, nb, h, path):
-    """input record; parts = the dot-separated components (RequireTrace checks NameStr(parts) = name)"""
-    return {"id": i, "names": names, "parts": [n.split(".") for n in names], "nb": nb, "path": path, "h": h}
+def mkrec(i, names, nb, h, path, skip=False):
+    """input record; parts = the dot-separated components (RequireTrace checks NameStr(parts) = name);
+    skip = the state is created with Options.SkipOpenLibs and the history opens the libraries itself"""
+    return {"id": i, "names": names, "parts": [n.split(".") for n in names], "nb": nb, "path": path, "skip": skip, "h": h}
 
 
 # --------------------------------------------------------------------------
@@ -68,7 +73,7 @@ def run_harness(recs, tag):
 
 def slim(rec):
     """the record as RequireTrace reads it (diagnostic fields dropped)."""
-    return {"id": rec["id"], "names": rec["names"], "parts": rec["parts"], "nb": rec["nb"], "path": rec["path"], "h": rec["h"],
+    return {"id": rec["id"], "names": rec["names"], "parts": rec["parts"], "nb": rec["nb"], "path": rec["path"], "skip": rec["skip"], "h": rec["h"],
             "obs": [{k: o[k] for k in FIELDS} for o in rec["obs"]]}
 
 
@@ -144,6 +149,14 @@ def case_key(rec, v):
             sit = "global-conflict"
         what = {"fl": "functions-not-registered", "fg": "functions-not-registered"}.get(field, field)
         return "C20:RegisterModule:%s:%s" % (sit, what)
+    if op["op"] == "open":
+        again = any(o["op"] == "open" and o["lib"] == op["lib"] for o in rec["h"][:pos - 1]) or not rec.get("skip")
+        sym = symptom(rec, field, exp, got)
+        if field == "ld":
+            k = first_diff(exp["ld"], got["ld"])
+            if k < len(got["ld"]) and got["ld"][k] == "nil":
+                sym = "package.loaded-entries-forgotten"
+        return "C20:Open-%s%s:%s" % (op["lib"], "-again" if again else "", sym)
     if op["op"] != "req":
         return "C20:%s:%s" % (op["op"], field)
     c = culprit(rec, pos, field, exp, got)
@@ -298,7 +311,7 @@ def validate_reproduced(recs, tag, verd, stats):
         k = case_key(rec, v)
         perkey[k] = perkey.get(k, 0) + 1
         if perkey[k] <= RECHECK_PER_KEY:
-            again.append(mkrec(rec["id"], rec["names"], rec["nb"], rec["h"][:v["pos"]], rec["path"]))
+            again.append(mkrec(rec["id"], rec["names"], rec["nb"], rec["h"][:v["pos"]], rec["path"], rec["skip"]))
     if again:
         _, rej2 = validate(run_harness(again, tag + "_re"), tag, verd, stats)
         if len(rej2) != len(again):
@@ -335,7 +348,8 @@ def gen_replay(tag, consts, names, verd, stats, cover, fut):
     leaves = [json.loads(k) for k in sorted(k for k, g in ((json.dumps(g["h"], sort_keys=True), g) for g in lines) if len(g["h"]) == depth)]
     t1 = time.time()
     path = GEN_PATHS[int(consts["PathSel"])]
-    recs = [mkrec(i + 1, names, 0, [expand(c, behs) for c in h], path) for i, h in enumerate(leaves)]
+    skip = consts["NameSel"] == "3"
+    recs = [mkrec(i + 1, names, 0, [expand(c, behs) for c in h], path, skip) for i, h in enumerate(leaves)]
     recs = run_harness(recs, tag)
     t2 = time.time()
     checked = set()
@@ -375,7 +389,7 @@ def gen_replay(tag, consts, names, verd, stats, cover, fut):
     # every mismatch is re-run on a fresh interpreter and re-decided by TLC
     nbad = 0
     if bad:
-        again = run_harness([mkrec(b["id"], names, 0, b["h"], path) for b in bad.values()], tag + "_re")
+        again = run_harness([mkrec(b["id"], names, 0, b["h"], path, skip) for b in bad.values()], tag + "_re")
         n, rejected = validate(again, tag, verd, stats)
         nbad = len(rejected)
         if nbad != len(bad):
@@ -478,7 +492,7 @@ def rand_hist(rng, n, names, path, plainfam=False):
     cur = path
     for _ in range(n):
         k = wchoice(rng, [("req", 45), ("preload", 12), ("file", 16), ("clear", 10), ("unpreload", 4), ("rmfile", 4),
-                          ("glob", 4 if plain else 0), ("register", 0 if plainfam or not plain else 6), ("path", 2)])
+                          ("glob", 4 if plain else 0), ("register", 0 if plainfam or not plain else 6), ("path", 2), ("reopen", 2)])
         nm = rng.choice(names)
         if k == "req" or k == "clear" or k == "unpreload":
             h.append({"op": k, "n": nm})
@@ -496,10 +510,37 @@ def rand_hist(rng, n, names, path, plainfam=False):
             h.append({"op": "glob", "n": rng.choice(plain), "kind": rng.choice(["tbl", "num", "nil"])})
         elif k == "register":
             h.append({"op": "register", "n": rng.choice(plain), "f": rng.choice(["f1", "f2"])})
+        elif k == "reopen":
+            h.append({"op": "open", "n": "package", "lib": "package"})       # the host opens the package library again
         else:
             cur = rng.choice(RPATHS)
             h.append({"op": "path", "n": "", "tpl": cur})
     return h
+
+
+HOSTNAMES = ["string", "table", "package", "x", "y"]
+
+
+def host_histories():
+    """states created with SkipOpenLibs: every order of {OpenBase, OpenPackage, OpenString, OpenTable, RegisterModule(x),
+    PreloadModule(y)} in which PreloadModule finds package.preload (i.e. after OpenBase and OpenPackage); then every name
+    is required, the package library is opened again, a Lua module is loaded in between, and everything is required again"""
+    import itertools
+    boot = {"base": {"op": "open", "n": "_G", "lib": "base"}, "package": {"op": "open", "n": "package", "lib": "package"},
+            "string": {"op": "open", "n": "string", "lib": "string"}, "table": {"op": "open", "n": "table", "lib": "table"},
+            "x": {"op": "register", "n": "x", "f": "f1"},
+            "y": {"op": "preload", "n": "y", "host": True,
+                  "beh": {"pre": "none", "reqs": [{"n": "x", "prot": True}], "post": "none", "fail": False, "ret": "tbl"}}}
+    probes = [{"op": "req", "n": n} for n in HOSTNAMES]
+    out = []
+    for perm in itertools.permutations(sorted(boot)):
+        if perm.index("y") < max(perm.index("base"), perm.index("package")):
+            continue
+        h = [boot[k] for k in perm] + probes + [{"op": "open", "n": "package", "lib": "package"}] + probes + \
+            [{"op": "register", "n": "x", "f": "f2"}, {"op": "clear", "n": "y"}, {"op": "req", "n": "y"}]
+        out.append(h)
+    return out
+
 
 
 # --------------------------------------------------------------------------
@@ -525,11 +566,13 @@ def run(tier):
            ("3 names, nested/cyclic/failing loaders", C(3, "{1,4,5,6,11,14}", '{"L","F1"}', "FALSE", 4 if thorough else 3)),
            ("names with 0-3 dots (quick: 0-2), 3 templates with several marks, files also at decoy names",
             C(4 if thorough else 3, "{1,2,4}" if thorough else "{1,4}", '{"L","F1","F2","F3"}', "FALSE", 3, **DOTS))]
+    mcs.append(("host mode: state without libraries, base/package/string/table opened in any order (package twice), RegisterModule, "
+                "PreloadModule, require", C(5, "{1,4}", '{"H"}', "FALSE", 10 if thorough else 9, NameSel=3)))
     if thorough:
         mcs.append(("3 names, depth 5, require/clear/preload of value, fail, require-other, require-self",
                     C(3, "{1,4,5,6}", '{"L"}', "FALSE", 5)))
-        mcs.append(("2 names, depth 4, every behaviour as Lua preload or file, all operations",
-                    C(2, ALLB, '{"L","F1"}', "TRUE", 4)))
+        mcs.append(("2 names, depth 4, 11 behaviours as Lua preload or file, all operations",
+                    C(2, "{1,2,3,4,5,6,8,9,10,12,15}", '{"L","F1"}', "TRUE", 4)))
     # TLC jobs run side by side (two at a time, 4 workers each) while the replay proceeds
     vlib.specdir()
     pool = ThreadPoolExecutor(max_workers=2)
@@ -539,14 +582,21 @@ def run(tier):
             ("q4-dotted-names-path-search", C(4, "{1}", '{"F1","F2","F3"}', "FALSE", 3, **DOTS)),
             ("q2-every-source-and-op", C(2, "{1,4,8}", '{"L","H","F1","F2"}', "TRUE", 3)),
             ("q2-depth4", C(2, "{1,2,4,6,8,9}", '{"L","H"}', "FALSE", 4)),
-            ("q3-cycles", C(3, "{1,4,5,6,11,14}", '{"L"}', "FALSE", 4))]
+            ("q3-cycles", C(3, "{1,4,5,6,11,14}", '{"L"}', "FALSE", 4)),
+            # load -> unload (package.loaded[n] = nil) -> require for every loader kind, 1 name, depth 4
+            ("q1-load-unload-reload", C(1, ALLB, '{"L","H"}', "FALSE", 4)),
+            ("q1-load-unload-reload-files", C(1, "{2,3,4,10,12}", '{"L","F1"}', "FALSE", 4)),
+            # SkipOpenLibs: libraries opened in any order by the history
+            ("q5-host-opens-libraries", C(5, "{1}", '{"H"}', "FALSE", 5, NameSel=3))]
     if thorough:
         gens = [("t2-every-behaviour-depth4", C(2, ALLB, '{"L","H"}', "FALSE", 4)),
                 ("t4-dotted-names-path-search", C(4, "{1,4}", '{"L","F1","F2","F3"}', "FALSE", 3, **DOTS)),
-                ("t2-everything-depth3", C(2, "{1,2,3,4,5,6,7,8,9,10,11,12,15}", '{"L","H","F1","F2"}', "TRUE", 3)),
+                ("t2-everything-depth3", C(2, "{1,2,3,4,5,6,8,9,10,12,15}", '{"L","H","F1","F2"}', "TRUE", 3)),
                 ("t3-cycles-depth5", C(3, "{1,4,5,6}", '{"L"}', "FALSE", 5)),
                 ("t3-nested-files-depth4", C(3, "{1,4,5,6,11,14}", '{"L","F1"}', "FALSE", 4)),
-                ("t2-depth5", C(2, "{1,4,5,8}", '{"L","F1"}', "FALSE", 5))]
+                ("t2-depth5", C(2, "{1,4,5,8}", '{"L","F1"}', "FALSE", 5)),
+                ("t1-load-unload-reload", C(1, "{1,2,3,4,7,8,9,10,12,13,15}", '{"L","H","F1"}', "FALSE", 4)),
+                ("t5-host-opens-libraries", C(5, "{1}", '{"H"}', "FALSE", 6, NameSel=3))]
     gens = [(tag, GEN_NAMES[int(c["NameSel"])][:int(c["NNames"])], c) for tag, c in gens]
     genfut = [pool.submit(vlib.run_tlc, "RequireMC", "RequireGen", consts=consts, timeout=1500, workers=4) for _, _, consts in gens]
     mcfut = [pool.submit(vlib.run_tlc, "RequireMC", "RequireMC", consts=consts, timeout=1500, workers=4) for _, consts in mcs]
@@ -560,7 +610,7 @@ def run(tier):
             stats["states"] += r.distinct
             stats["transitions"] += r.generated
             mc.append({"what": what, "constants": consts, "generated": r.generated, "distinct": r.distinct})
-            vlib.log("[C20] MC %s: %d generated / %d distinct states, 3 invariants + 12 step laws hold (%.0fs)" % (what, r.generated, r.distinct, r.wall))
+            vlib.log("[C20] MC %s: %d generated / %d distinct states, 4 invariants + 15 step laws hold (%.0fs)" % (what, r.generated, r.distinct, r.wall))
     finally:
         pool.shutdown(wait=True, cancel_futures=True)
     # 3. TRACE: libraries opened by the host, random longer histories
@@ -570,6 +620,12 @@ def run(tier):
     n, nrej, _, _ = validate_reproduced(recs, "stdlib", verd, stats)
     total += n
     vlib.log("[C20] TRACE stdlib: %d libraries opened by the host decided (require(name) == _G[name] == package.loaded[name]), %d rejected" % (n, nrej))
+    hh = host_histories()
+    recs = run_harness([mkrec(i + 1, HOSTNAMES, 0, h, P1, skip=True) for i, h in enumerate(hh)], "host")
+    n, nrej, hkeys, hsteps = validate_reproduced(recs, "host", verd, stats)
+    total += n
+    vlib.log("[C20] TRACE host: %d states created with SkipOpenLibs (every admissible order of OpenBase/OpenPackage/OpenString/OpenTable/"
+             "RegisterModule/PreloadModule, then require, OpenPackage again, require) decided, %d steps, %d rejected" % (n, hsteps, nrej))
     rng = random.Random(vlib.seed() * 7919 + 20)
     nrand = 12000 if thorough else 1500
     recs = []
@@ -604,7 +660,7 @@ def run(tier):
         "gen_probe_steps": cover["probes"], "gen_probe_steps_running_loaders": cover["probes_running_loaders"],
         "gen_result_classes": cover["res_classes"],
         "random_histories": n, "random_histories_rejected": nrej, "random_rejected_by_case_key": rkeys, "random_steps_judged": rsteps, "random_steps_total": sum(len(h) for h in hists), "random_require_steps": nreq, "random_steps_running_loaders": nrun, "random_steps_nested_loads": nnest,
-        "stdlib_names": STDLIBS,
+        "stdlib_names": STDLIBS, "host_order_histories": len(hh), "host_order_steps_judged": hsteps,
         "samples": cover["samples"], "exhaustive": True,
         "exhaustive_scope": "operation alphabets of gen_configs up to their MaxHist",
         "known_findings_hit": sorted(verd.known_hit),
@@ -618,6 +674,8 @@ def run(tier):
         "module names: a, b, c / names with 1-3 dots / a leading, a trailing and a doubled dot; the name-to-file conversion is the "
         "specification's (CandRaw/CandNorm): the harness writes files at paths it is given and reports the file names a message lists",
         "module()/RegisterModule/global assignment only with undotted names; package.seeall, loadlib and coroutines are not exercised",
+        "host side: libraries base, package, string, table opened through the exported Open functions (as LState.OpenLibs does); after "
+        "OpenPackage the harness puts package.path back; require/preload/clear are used only once base and package are open",
         "the steps of a history after its first difference are not judged (a listed finding masks the rest of the histories it occurs in)"])
     return rc
 
@@ -629,6 +687,6 @@ def replay(path):
     verd = vlib.Verdicts(PROP)
     verd.findings = []
     stats = {"states": 0, "transitions": 0, "steps_validated": 0}
-    again = run_harness([mkrec(r0["id"], r0["names"], r0["nb"], r0["h"], r0["path"])], "replay")
+    again = run_harness([mkrec(r0["id"], r0["names"], r0["nb"], r0["h"], r0["path"], r0.get("skip", False))], "replay")
     validate(again, rec["replay"].get("config", "replay"), verd, stats)
     return verd.finish()
